@@ -329,8 +329,10 @@ func c17Build(p *c17Prog, r *rand.Rand, variant int) (c17Case, bool) {
 			return c17Case{}, false
 		}
 		rs := []rune(w)
-		quoted := pick(r, []string{"'" + w + "'", `"` + w + `"`, `\` + w, string(rs[:1]) + "''" + string(rs[1:]), string(rs[:1]) + `\` + string(rs[1:])})
-		if len(rs) == 1 {
+		quoted := pick(r, []string{"'" + w + "'", `"` + w + `"`, `\` + w, string(rs[:1]) + "''" + string(rs[1:]), string(rs[:1]) + `\` + string(rs[1:]),
+			// the alias name followed by a quoted / expanded part: one word, not the alias
+			w + "''", w + `""`, w + "'x'", w + "$s", w + `\x`, w + `"$@"`, w + "${s}", w + "$(true)"})
+		if len(rs) == 1 && len([]rune(quoted)) < 3 {
 			quoted = "'" + w + "'"
 		}
 		src := text[:t[i].Off] + quoted + text[p.end(i):]
